@@ -21,13 +21,13 @@ from checks import c02
 PID = "C01"
 RULE = ("configurations of (base, Moebius map, rotation, translation, scale, k, resampling, solver, fit) within the deviation bound of a centre; "
         "all connected sub-tissues of a base. non-trivial = unique up to scale (nullity 1) with at least one junction; classes = (base, map, k, ne, solver, fit)")
-BOUND = {"quick": "deviation bound d=2 around the centre of 2 bases (+1 seeded), all connected sub-tissues of an 11-cell base (3 configurations each, one with the library's default allow_negatives); point counts 0..16 per interface and mixed per-interface counts; one major-arc family; d=1 around two tissues with a lens cell (two interfaces sharing both end junctions) kept in exact force balance",
+BOUND = {"quick": "deviation bound d=2 around the centre of 2 bases (+1 seeded), all connected sub-tissues of an 11-cell base (3 configurations each, one with the library's default allow_negatives); point counts 0..16 per interface and mixed per-interface counts; one major-arc family; d=1 around two tissues with a lens cell (two interfaces sharing both end junctions) kept in exact force balance; second inferences after an in-place translation and after resampling the same objects",
          "thorough": "d=3 on one base, d=2 on three, full product k x ne x solver x fit on one base, all sub-tissues of a 12-cell base (5 configurations); d=2 around three tissues with a lens cell"}
 ASSUMPTIONS = ["tolerance(iii) = 10 x (measured max coefficient error) x sqrt(nnz) x |z| / sigma_min(reference augmented system) + solver term (1e-8 default path, 2e-4/sigma_min iterative back-ends)",
                "instances where force balance does not determine the tensions up to scale (nullity != 1) give no verdict",
                "with k=0 resampling is taken with replace_short_edges=False (contracting border edges moves the far end of inferred interfaces)",
                "a two-point interface of a Moebius image is a chord, not an arc: k=0 is only combined with straight tissues"]
-REQUIRED_TAGS = {"all": ["verdict", "resampled", "solver:lsq", "solver:lsq_linear", "fit:taubinSVD", "straight", "curved", "path:inv", "path:nnls-fallback", "subtissue_verdict", "major_arc", "mixed_point_counts", "verdict_with_negatives_allowed", "live_translation", "after_other_objects"]}
+REQUIRED_TAGS = {"all": ["verdict", "resampled", "solver:lsq", "solver:lsq_linear", "fit:taubinSVD", "straight", "curved", "path:inv", "path:nnls-fallback", "subtissue_verdict", "major_arc", "mixed_point_counts", "verdict_with_negatives_allowed", "live_translation", "after_other_objects", "live_resample"]}
 
 
 def judge(at, cm, r, method, fit, viol, known, tags, neg=False):
@@ -414,6 +414,44 @@ def eval_live(d):
             "nontrivial": verdict, "outdom": not verdict}
 
 
+def eval_live_resample(d):
+    """inference on the mesh as given, then generate_mesh on the SAME vertex / edge / cell objects (as a user does who first looks
+    at the raw segmentation and then resamples it), a new Frame on the result and inference again: the second answer is judged
+    against the analytic truth ('before and after mesh resampling')"""
+    import forsys as fs
+    import forsys.virtual_edges as ve
+    base, mobspec, fit, solver, ne = d["base"], d["mob"], d["fit"], d["solver"], d["ne"]
+    at = bases.get(base)
+    cm = SC.make_cmap(mobspec, d["rot"], (0, 0), 1.0, SC.extent_of(at))
+    viol, known, tags = [], [], ["live_resample"]
+    r = SC.solve_static(at, k=d["k"], cmap=cm, fit=fit, method=solver, allow_negatives=False)
+    if r.exc is not None:
+        return {"viol": [{"what": "static inference raised on an equilibrium tissue", "detail": fsutil.exc_str(r.exc)}], "tags": tags, "cls": "exc"}
+    v, e, c = r.vertices, r.edges, r.cells
+    r.frame = r.forsys = r.fm = None       # the first Frame / ForSys are dropped, as when the user rebinds the names
+    try:
+        with fsutil.quiet():
+            v, e, c, _ = ve.generate_mesh(v, e, c, ne=ne)
+            frame = T.frame_of(v, e, c)
+            s = fs.ForSys({0: frame})
+            s.build_force_matrix(when=0, circle_fit_method=fit, angle_limit=np.inf, metadata={})
+            s.solve_stress(when=0, allow_negatives=False, **({} if solver is None else {"method": solver}))
+    except Exception as ex:
+        return {"viol": [{"what": "resampling the objects of an already analysed equilibrium tissue and analysing them again raised", "detail": fsutil.exc_str(ex)}],
+                "tags": tags, "cls": "exc"}
+    r.vertices, r.edges, r.cells, r.frame, r.forsys = v, e, c, frame, s
+    r.fm = s.force_matrices[0]
+    r.M = np.array(r.fm.matrix, float)
+    r.forces = [float(s.forces[0][i]) for i in range(len(s.forces[0]))]
+    r.record = getattr(r.fm, "_verif_record", None)
+    r.cols = SC.column_interfaces(frame, r.fm, r.info, at)
+    verdict = judge(at, cm, r, solver, fit, viol, known, tags)
+    for v_ in viol:
+        v_["what"] = "[second inference after resampling the same objects] " + v_["what"]
+    return {"viol": viol, "known": known, "tags": sorted(set(tags)), "cls": "%s/%s/%s/%s/%s" % (base, mobspec, fit, solver, ne),
+            "nontrivial": verdict, "outdom": not verdict}
+
+
 def eval_after_others(d):
     """another ForSys object of the same tissue (same ids) is built with a strict angle limit and solved first; the judged inference
     then runs on freshly built objects with no limit. Nothing of the first object may reach the second (class attributes, mutable
@@ -448,7 +486,10 @@ def build(tier, seed):
                                                  for b in ("v5x5", "v6x5") for m in (["m", 0.05, 0.02], ["mc", 0.12, 0.05]) for f in ("dlite", "taubinSVD")
                                                  for sv in (None, "lsq_linear") for i, tr in enumerate([(3, -2), (-39.8, 18.8), (0.02, 0.01)])], eval_live),
                 ListSystem("after-other-objects", [{"base": b, "mob": m, "fit": f, "solver": sv, "rot": 0.1234 + 0.37 * seed}
-                                                   for b in ("v5x5", "v6x5") for m in (["m", 0.05, 0.02], ["id"]) for f in ("dlite", "taubinSVD") for sv in (None, "lsq")], eval_after_others)]
+                                                   for b in ("v5x5", "v6x5") for m in (["m", 0.05, 0.02], ["id"]) for f in ("dlite", "taubinSVD") for sv in (None, "lsq")], eval_after_others),
+                ListSystem("live-resample", [{"base": b, "mob": m, "fit": f, "solver": sv, "k": k, "ne": ne, "rot": 0.1234 + 0.37 * seed}
+                                             for b in ("v5x5", "v6x5") for m in (["m", 0.05, 0.02], ["id"]) for f in ("dlite", "taubinSVD") for sv in (None, "lsq_linear")
+                                             for k, ne in ((8, 4), (5, 2), (12, 6))], eval_live_resample)]
     return [Geometry(["v5x5"], 3, 12, seed),
             Geometry(["v6x5", "v6x6", "v7x6p%d" % (seed + 1)], 2, 24, seed),
             Geometry(["v5x5+lens0", "v6x5+lens5", "v6x6+lens2"], 2, 8, seed),
@@ -460,4 +501,7 @@ def build(tier, seed):
                                              for sv in (None, "lsq", "lsq_linear") for i, tr in enumerate([(3, -2), (-39.8, 18.8), (0.02, 0.01), (1e3, 0), (0, -1e2)])], eval_live),
             ListSystem("after-other-objects", [{"base": b, "mob": m, "fit": f, "solver": sv, "rot": 0.1234 + 0.37 * seed}
                                                for b in ("v5x5", "v6x5", "v6x6") for m in (["m", 0.05, 0.02], ["id"], ["mc", 0.12, 0.05]) for f in ("dlite", "taubinSVD")
-                                               for sv in (None, "lsq", "lsq_linear")], eval_after_others)]
+                                               for sv in (None, "lsq", "lsq_linear")], eval_after_others),
+            ListSystem("live-resample", [{"base": b, "mob": m, "fit": f, "solver": sv, "k": k, "ne": ne, "rot": 0.1234 + 0.37 * seed}
+                                         for b in ("v5x5", "v6x5", "v6x6") for m in (["m", 0.05, 0.02], ["id"], ["mc", 0.12, 0.05]) for f in ("dlite", "taubinSVD") for sv in (None, "lsq", "lsq_linear")
+                                         for k, ne in ((8, 4), (5, 2), (12, 6), (16, 12), (3, 2))], eval_live_resample)]
